@@ -55,11 +55,10 @@ Proof.
 Qed.
 Print Assumptions C18_exactly_once.
 
-(* stream failure, for the loop that wins the epoch CAS (the only branch of recreateStreamingClient that calls
-   failPendingRequests): no entry of that stream stays in flight, each of them got exactly the stream error,
-   entries of other forwarded hosts are untouched *)
-Theorem C18_fail_pending_total : forall s h ep s', reachable s ->
-  loops s h = LIdle ep -> ep = epoch s -> closed s = false -> step s (StreamFail h) = Some s' ->
+(* stream failure (both branches of the epoch CAS, client not closed): no entry of that stream stays in flight, each
+   of them got exactly the stream error, entries of other forwarded hosts are untouched *)
+Theorem C18_fail_pending_total : forall s h s', reachable s ->
+  closed s = false -> step s (StreamFail h) = Some s' ->
   (forall i c, In (i, c) (tab s') -> e_host (ent s' c) <> h)
   /\ (forall i c, In (i, c) (tab s) -> e_host (ent s c) = h ->
         e_comp (ent s' c) = [Err EStream] /\ e_st (ent s' c) = Retired /\ ~ In (i, c) (tab s'))
@@ -67,20 +66,20 @@ Theorem C18_fail_pending_total : forall s h ep s', reachable s ->
 Proof. exact fail_pending_total. Qed.
 Print Assumptions C18_fail_pending_total.
 
-(* documentation of the epoch hypothesis above: without it the statement is false for the code as it is — a loop
-   whose local epoch is stale re-creates its stream without failing its pending entries (they complete by
-   their callers' time-outs; not a violation of the caller-level property) *)
-Theorem C18_fail_pending_unconditional_refuted : ~ fail_pending_unconditional.
-Proof. exact fail_pending_unconditional_refuted. Qed.
-Print Assumptions C18_fail_pending_unconditional_refuted.
+(* regression witness: with the CAS-losing branch as it was before fix a827fda (`streamfail_prefix_loser`: re-create
+   only) a reachable state exists in which an entry of the failed stream stays in flight without any completion *)
+Theorem C18_prefix_loser_branch_refuted : exists s s', reachable s /\ closed s = false /\
+  streamfail_prefix_loser s 0 = Some s' /\ In (1, 0) (tab s') /\ e_host (ent s' 0) = 0 /\ e_comp (ent s' 0) = [].
+Proof. exact prefix_loser_keeps_pending. Qed.
+Print Assumptions C18_prefix_loser_branch_refuted.
 
 (* the losing branch of the epoch CAS refreshes the loop's epoch copy (`*epoch = atomic.LoadUint64(&c.epoch)`) and
-   changes nothing else; therefore, as long as no other loop wins a CAS in between (epoch unchanged), the NEXT break
+   leaves the epoch alone; therefore, as long as no other loop wins a CAS in between (epoch unchanged), the NEXT break
    of the same stream wins the CAS: failPendingRequests is reached, every entry then in flight on that stream gets
    the stream error and leaves the table *)
 Theorem C18_lost_cas_refreshes_epoch : forall s h ep s', loops s h = LIdle ep -> ep <> epoch s -> closed s = false ->
   step s (StreamFail h) = Some s' ->
-  loops s' h = LIdle (epoch s') /\ epoch s' = epoch s /\ tab s' = tab s /\ (forall c, ent s' c = ent s c).
+  loops s' h = LIdle (epoch s') /\ epoch s' = epoch s.
 Proof. exact lost_cas_refreshes. Qed.
 Print Assumptions C18_lost_cas_refreshes_epoch.
 
@@ -138,12 +137,15 @@ Example ex_fail_pending : let s := get (run init [Submit 1 0; Submit 2 1; Build 
   tab s = [(2, 2)] /\ e_comp (ent s 1) = [Err EStream] /\ e_comp (ent s 2) = [] /\ epoch s = 1.
 Proof. vm_compute. auto. Qed.
 
-(* the hypotheses of C18_fail_pending_total are satisfiable *)
+(* the hypotheses of C18_fail_pending_total are satisfiable; the CAS-losing branch fails its pending entry too *)
 Example ex_fail_pending_hyps : let s := get (run init [Submit 1 0; Build 1 1; Store 1]) in
-  reachable s /\ loops s 0 = LIdle (epoch s) /\ closed s = false /\ step s (StreamFail 0) <> None.
+  reachable s /\ closed s = false /\ step s (StreamFail 0) <> None.
 Proof.
   split; [exists [Submit 1 0; Build 1 1; Store 1]; reflexivity|]. vm_compute. repeat split; discriminate.
 Qed.
+Example ex_loser_fails_pending : let s := get (run init (stale_epoch_run ++ [StreamFail 0])) in
+  tab s = [] /\ e_comp (ent s 0) = [Err EStream] /\ e_comp (ent s 1) = [Err EStream] /\ epoch s = 1 /\ loops s 0 = LIdle 1.
+Proof. vm_compute. auto. Qed.
 
 (* a canceled (timed-out) entry: its late response is dropped, the entry still leaves the table;
    a duplicate response is counted as outdated *)
